@@ -25,7 +25,18 @@
     database opened and stored) and [OClearFinish id] (current unit replaced),
     between which updates and flushes may land.
 
-    Not modelled: per-upstream average times (floats); [Entry.Result < 0],
+    Upstream statistics (round 4): per upstream address the unit keeps the
+    number of responses ([u_up], upstreamsResponses) and the SUM of their
+    durations in whole microseconds ([u_upt], upstreamsTimeSum; uint64 in Go,
+    exact here); both maps are cut to their 100 largest values independently
+    when the unit is serialised, so an upstream may keep its count and lose its
+    time sum or the other way round.  The API divides the merged sum by the
+    merged count in float64 and multiplies by 1e-6: the model stops at the two
+    integers ([d_up_avg]: one entry per upstream of the merged responses whose
+    merged time sum is not zero), the harness compares those exactly and checks
+    the one floating-point expression in Go.
+
+    Not modelled: [Entry.Result < 0],
     which passes [validate] and then panics in [unit.add] (index out of range)
     before anything is changed: [update_panics] says when, the state is
     unchanged. *)
@@ -45,12 +56,13 @@ Record unit := {
   u_total : Z;
   u_nf : Z; u_f : Z; u_sb : Z; u_ss : Z; u_p : Z;     (* nResult[1..5] *)
   u_dom : amap; u_blk : amap; u_cli : amap; u_up : amap;
-  u_tsum : Z                                             (* timeSum, microseconds *)
+  u_tsum : Z;                                            (* timeSum, microseconds *)
+  u_upt : amap                                           (* upstreamsTimeSum, microseconds *)
 }.
 
 Definition empty_unit : unit :=
   {| u_total := 0; u_nf := 0; u_f := 0; u_sb := 0; u_ss := 0; u_p := 0;
-     u_dom := []; u_blk := []; u_cli := []; u_up := []; u_tsum := 0 |}.
+     u_dom := []; u_blk := []; u_cli := []; u_up := []; u_tsum := 0; u_upt := [] |}.
 
 Definition u_cat (c : cat) (u : unit) : Z :=
   match c with NF => u_nf u | F => u_f u | SB => u_sb u | SS => u_ss u | P => u_p u end.
@@ -73,7 +85,8 @@ Record entry := {
   e_res : Z;                    (* Entry.Result as given *)
   e_dom : Z;                    (* 0 = "" *)
   e_cli : Z;                    (* 0 = "" *)
-  e_ups : list (Z * bool);      (* upstream address, counted = !IsCached && Error == nil *)
+  e_ups : list (Z * bool * Z);  (* upstream address, counted = !IsCached && Error == nil,
+                                   QueryDuration.Microseconds() *)
   e_time : Z                    (* ProcessingTime.Microseconds(), >= 0 *)
 }.
 
@@ -89,32 +102,36 @@ Definition incr_cat (c : cat) (u : unit) : unit :=
   match c with
   | NF => {| u_total := u_total u; u_nf := u_nf u + 1; u_f := u_f u; u_sb := u_sb u;
              u_ss := u_ss u; u_p := u_p u; u_dom := u_dom u; u_blk := u_blk u;
-             u_cli := u_cli u; u_up := u_up u; u_tsum := u_tsum u |}
+             u_cli := u_cli u; u_up := u_up u; u_tsum := u_tsum u; u_upt := u_upt u |}
   | F  => {| u_total := u_total u; u_nf := u_nf u; u_f := u_f u + 1; u_sb := u_sb u;
              u_ss := u_ss u; u_p := u_p u; u_dom := u_dom u; u_blk := u_blk u;
-             u_cli := u_cli u; u_up := u_up u; u_tsum := u_tsum u |}
+             u_cli := u_cli u; u_up := u_up u; u_tsum := u_tsum u; u_upt := u_upt u |}
   | SB => {| u_total := u_total u; u_nf := u_nf u; u_f := u_f u; u_sb := u_sb u + 1;
              u_ss := u_ss u; u_p := u_p u; u_dom := u_dom u; u_blk := u_blk u;
-             u_cli := u_cli u; u_up := u_up u; u_tsum := u_tsum u |}
+             u_cli := u_cli u; u_up := u_up u; u_tsum := u_tsum u; u_upt := u_upt u |}
   | SS => {| u_total := u_total u; u_nf := u_nf u; u_f := u_f u; u_sb := u_sb u;
              u_ss := u_ss u + 1; u_p := u_p u; u_dom := u_dom u; u_blk := u_blk u;
-             u_cli := u_cli u; u_up := u_up u; u_tsum := u_tsum u |}
+             u_cli := u_cli u; u_up := u_up u; u_tsum := u_tsum u; u_upt := u_upt u |}
   | P  => {| u_total := u_total u; u_nf := u_nf u; u_f := u_f u; u_sb := u_sb u;
              u_ss := u_ss u; u_p := u_p u + 1; u_dom := u_dom u; u_blk := u_blk u;
-             u_cli := u_cli u; u_up := u_up u; u_tsum := u_tsum u |}
+             u_cli := u_cli u; u_up := u_up u; u_tsum := u_tsum u; u_upt := u_upt u |}
   end.
 
 (** unit.add for a result code in 1..5 *)
 Definition add_cat (c : cat) (e : entry) (u : unit) : unit :=
   let u1 := incr_cat c u in
-  let ups := fold_left (fun (m : amap) (a : Z * bool) => if snd a then bump_by (fst a) 1 m else m) (e_ups e) (u_up u1) in
+  let ups := fold_left (fun (m : amap) (a : Z * bool * Z) =>
+                          if snd (fst a) then bump_by (fst (fst a)) 1 m else m) (e_ups e) (u_up u1) in
+  let upt := fold_left (fun (m : amap) (a : Z * bool * Z) =>
+                          if snd (fst a) then bump_by (fst (fst a)) (snd a) m else m) (e_ups e) (u_upt u1) in
   {| u_total := u_total u1 + 1;
      u_nf := u_nf u1; u_f := u_f u1; u_sb := u_sb u1; u_ss := u_ss u1; u_p := u_p u1;
      u_dom := match c with NF => bump_by (e_dom e) 1 (u_dom u1) | _ => u_dom u1 end;
      u_blk := match c with NF => u_blk u1 | _ => bump_by (e_dom e) 1 (u_blk u1) end;
      u_cli := bump_by (e_cli e) 1 (u_cli u1);
      u_up := ups;
-     u_tsum := u_tsum u1 + e_time e |}.
+     u_tsum := u_tsum u1 + e_time e;
+     u_upt := upt |}.
 
 (** * Serialisation: unit.serialize / unit.deserialize *)
 
@@ -142,7 +159,8 @@ Definition ser (u : unit) : unit :=
      u_nf := u_nf u; u_f := u_f u; u_sb := u_sb u; u_ss := u_ss u; u_p := u_p u;
      u_dom := cut100 (u_dom u); u_blk := cut100 (u_blk u);
      u_cli := cut100 (u_cli u); u_up := cut100 (u_up u);
-     u_tsum := time_avg u * u_total u |}.
+     u_tsum := time_avg u * u_total u;
+     u_upt := cut100 (u_upt u) |}.
 
 (** * The database: id -> stored unit *)
 
@@ -316,8 +334,27 @@ Record data := {
   d_dns : list Z; d_blocked : list Z; d_sb : list Z; d_par : list Z;
   d_num : Z; d_num_f : Z; d_num_sb : Z; d_num_ss : Z; d_num_p : Z;
   d_top_dom : amap; d_top_blk : amap; d_top_cli : amap; d_top_up : amap;
-  d_avg : Z                      (* avg_processing_time in whole microseconds *)
+  d_avg : Z;                     (* avg_processing_time in whole microseconds *)
+  d_up_avg : list (Z * (Z * Z))  (* top_upstreams_avg_time before the division: upstream,
+                                    (merged time sum in microseconds, merged responses) *)
 }.
+
+(** lookup in a key-sorted association list, 0 when absent (Go: m[k]) *)
+Fixpoint mget (k : Z) (m : amap) : Z :=
+  match m with
+  | [] => 0
+  | (k', v) :: m' => if k =? k' then v else mget k m'
+  end.
+
+(** topUpstreamsPairs: the responses and the time sums of all units merged;
+    an average for every upstream that has responses and a non-zero time sum
+    (keys in order; the API sorts by the quotient). *)
+Definition up_avg (us : list unit) : list (Z * (Z * Z)) :=
+  let resp := fold_left merge (map u_up us) [] in
+  let tsum := fold_left merge (map u_upt us) [] in
+  fold_right (fun kv acc =>
+                let t := mget (fst kv) tsum in
+                if t =? 0 then acc else (fst kv, (t, snd kv)) :: acc) [] resp.
 
 (** dataFromUnits: sum.TimeAvg (uint32) over all units, divided by the number
     of units with a non-zero TimeAvg. *)
@@ -348,7 +385,8 @@ Definition get_data (s : state) : data :=
      d_top_blk := cut100 (fold_left merge (map u_blk us) []);
      d_top_cli := cut100 (fold_left merge (map u_cli us) []);
      d_top_up := cut100 (fold_left merge (map u_up us) []);
-     d_avg := avg_time us |}.
+     d_avg := avg_time us;
+     d_up_avg := up_avg us |}.
 
 (** GET /control/stats: 500 "Couldn't get statistics data" while the database
     pointer is nil. *)
